@@ -459,6 +459,28 @@ pub fn worker(which: &str, tier: &str, shard: u64, nshards: u64, budget_s: f64) 
                     break 'outer;
                 }
             }
+            // C17: the same comparison on top of UNCOMMITTED blocks in which the sender and the program's storage
+            // were used (a simulation that read the committed state, or a stale nonce, would differ here); the
+            // state is not restored afterwards — the next program starts from a wipe
+            if which == "C17" {
+                let mut w = worlds[0].clone();
+                for s in block(vec![s_set(1, 0, 7), TxSpec::Call { pk: 1, tgt: prog_tgt(), data: datas[0].clone(), len: DEFAULT_LEN }]) {
+                    w.exec(&mut a, &s);
+                }
+                w.exec(&mut a, &Step::Mine(1));
+                for d in datas.iter().skip(1).take(1) {
+                    st.cases += 1;
+                    let what = format!("{} call data n={} on two uncommitted blocks", pname, d[0]);
+                    let (ok, data) = sim(&mut a, &sender, Some(&target), d);
+                    let call = TxSpec::Call { pk: 1, tgt: prog_tgt(), data: d.clone(), len: DEFAULT_LEN };
+                    let (rc, out) = submit(&mut a, &mut w, &call);
+                    let status = rc["status"].as_str() == Some("0x1");
+                    if status != ok || out.trim_start_matches("0x") != data.trim_start_matches("0x") {
+                        st.violations.push(mk("call-differs-from-transaction", what.clone(), format!("eth_call gave (success {}, data {}) but the transaction gave (status {}, output {})", ok, trunc(&data, 200), rc["status"], trunc(&out, 200))));
+                    }
+                }
+                a.call("brc20_clearCaches", json!([]));
+            }
             // C17: a simulated creation runs at the address the real deployment gets (init code that bakes
             // ADDRESS, CALLER, ORIGIN and CODESIZE-independent environment into the runtime code), for a used
             // and for a never-used deployer
